@@ -77,3 +77,16 @@ def gated(name: str) -> str:
 
 def child_of(name: str) -> str:
     return "c:" + name
+
+
+RETRY_ONCE = [True]
+
+
+def wf_randoms_retry(n: int) -> list:
+    """asks for n deterministic random numbers, fails retriably on its first execution, returns them on the second"""
+    task = WF_TASK[0]
+    vals = [task.wf.random() for _ in range(n)]
+    if RETRY_ONCE[0]:
+        RETRY_ONCE[0] = False
+        raise Retriable("first execution fails", vals)
+    return vals
